@@ -19,7 +19,7 @@ def run(chk: common.Check) -> None:
     chk.assumptions += ['CPython calls the trace function per thread/task as the model\'s labels say (no nested trace calls within one trace)',
                         'itertools.count().__next__ is atomic under the GIL (single counters for trace-call and prompt numbers)']
     n1, n2 = (60, 30) if chk.tier == 'quick' else (600, 300)
-    specs = _trace.gen_specs(chk, n1, n2)
+    specs = _trace.gen_specs(chk, n1, n2) + _trace.stress_specs(chk, 8 if chk.tier == 'quick' else 60)
     results = _trace.run_specs(specs)
     lines: list[str] = []
     spans = []
